@@ -1,3 +1,161 @@
-/-! # C07 — property theorems (stub: not built yet) -/
+import PymtlVerif.Proofs.Rtl
+/-!
+# C07 — flip-flop updates are atomic at the clock edge
+
+Model: `Model/Rtl.lean` (`Asg.runFF`, `Blk.runFF`, `runFFs`, `flip`, `tick`). An `update_ff` block evaluates its
+right-hand sides on the *current* values and writes only the `_next` shadow; the flip installs the shadow of
+exactly the registers. The theorems hold for every number of blocks, every permutation, every state.
+-/
 namespace PV.C07
+open PV.Rtl PV.Sched
+
+/-! ## helper facts about `runFF` (kept here because they are specific to this property) -/
+
+theorem foldl_runFF_frame (as : List Asg) (cur nx : St) (v : Var) (h : ∀ a ∈ as, ¬ a.tgt.has v) :
+    (as.foldl (fun nx a => a.runFF cur nx) nx) v = nx v := by
+  induction as generalizing nx with
+  | nil => rfl
+  | cons a as ih =>
+    simp only [List.foldl_cons]
+    rw [ih _ (fun b hb => h b (List.mem_cons_of_mem _ hb))]
+    simp [Asg.runFF, h a List.mem_cons_self]
+
+theorem foldl_runFF_dep (as : List Asg) (cur nx nx' : St) (X : Var → Prop) (hX : ∀ v, X v → nx v = nx' v) :
+    ∀ v, (X v ∨ ∃ a ∈ as, a.tgt.has v) →
+      (as.foldl (fun nx a => a.runFF cur nx) nx) v = (as.foldl (fun nx a => a.runFF cur nx) nx') v := by
+  induction as generalizing X nx nx' with
+  | nil =>
+    intro v hv
+    rcases hv with hv | ⟨a, ha, _⟩
+    · exact hX v hv
+    · cases ha
+  | cons a as ih =>
+    intro v hv
+    simp only [List.foldl_cons]
+    apply ih (a.runFF cur nx) (a.runFF cur nx') (fun u => X u ∨ a.tgt.has u)
+    · intro u hu
+      by_cases ht : a.tgt.has u
+      · simp [Asg.runFF, ht]
+      · simp only [Asg.runFF, ht, ↓reduceIte]
+        rcases hu with hu | hu
+        · exact hX u hu
+        · exact absurd hu ht
+    · rcases hv with hv | ⟨c, hc, hcv⟩
+      · exact Or.inl (Or.inl hv)
+      · rcases List.mem_cons.mp hc with rfl | hc
+        · exact Or.inl (Or.inr hcv)
+        · exact Or.inr ⟨c, hc, hcv⟩
+
+/-- an ff block, for fixed pre-edge values `cur`, as an abstract block on the shadow buffer:
+it reads nothing of the shadow and writes its targets -/
+def denoteFF (cur : St) (b : Blk) : Sched.Blk Var Bool :=
+  { R := fun _ => False, W := inRngs b.writes, run := b.runFF cur }
+
+theorem denoteFF_wf (cur : St) (b : Blk) : (denoteFF cur b).Wf := by
+  refine ⟨?_, ?_, ?_⟩
+  · intro nx v hv
+    apply foldl_runFF_frame
+    intro a ha hav
+    exact hv ⟨a.tgt, by simp [Blk.writes]; exact ⟨a, ha, rfl⟩, hav⟩
+  · intro nx nx' _ v ⟨r, hr, hv⟩
+    apply foldl_runFF_dep b.asgs cur nx nx' (fun _ => False) (fun _ h => h.elim)
+    simp only [Blk.writes, List.mem_map] at hr
+    obtain ⟨a, ha, rfl⟩ := hr
+    exact Or.inr ⟨a, ha, hv⟩
+  · intro v h; exact h.elim
+
+theorem runFFs_eq (ffs : List Blk) (cur nx : St) :
+    runFFs ffs cur nx = runList (ffs.map (denoteFF cur)) nx := by
+  unfold runFFs runList
+  induction ffs generalizing nx with
+  | nil => rfl
+  | cons b bs ih => simp only [List.foldl_cons, List.map_cons]; exact ih _
+
+/-! ## the property theorems -/
+
+/-- every order of the update_ff blocks produces the same shadow buffer (single writer per register) -/
+theorem ff_perm (p1 p2 : List Blk) (h : p1.Perm p2) (hsw : singleWriterB p1 = true) (cur nx : St) :
+    runFFs p1 cur nx = runFFs p2 cur nx := by
+  rw [runFFs_eq, runFFs_eq]
+  apply perm_commute _ _ (h.map _)
+  · intro b hb
+    obtain ⟨c, _, rfl⟩ := List.mem_map.mp hb
+    exact denoteFF_wf cur c
+  · have := singleWriterB_sound p1 hsw
+    unfold SingleWriter at this ⊢
+    rw [List.pairwise_map] at this ⊢
+    exact this
+  · intro a ha b _ v hr
+    obtain ⟨c, _, rfl⟩ := List.mem_map.mp ha
+    exact hr.elim
+
+/-- nothing an ff block assigns is visible before the flip: the ff phase leaves every current value
+untouched, so every block — whatever its position — evaluates on the pre-edge values -/
+theorem ff_reads_pre_edge (comb ffs : List Blk) (st : FState) :
+    let st1 := evalComb comb st
+    ({ st1 with next := runFFs ffs st1.cur st1.next } : FState).cur = st1.cur := rfl
+
+/-- a register no executed assignment targets keeps its shadow (= its value, by `next_eq_cur`) -/
+theorem hold (b : Blk) (cur nx : St) (v : Var) (h : ¬ inRngs b.writes v) : b.runFF cur nx v = nx v := by
+  apply foldl_runFF_frame
+  intro a ha hav
+  exact h ⟨a.tgt, by simp [Blk.writes]; exact ⟨a, ha, rfl⟩, hav⟩
+
+/-- the committed value is that of the last assignment executed in the block, evaluated on pre-edge values -/
+theorem last_wins (pre post : List Asg) (a : Asg) (id : Nat) (cur nx : St) (v : Var)
+    (hv : a.tgt.has v) (hpost : ∀ c ∈ post, ¬ c.tgt.has v) :
+    (Blk.mk id (pre ++ a :: post)).runFF cur nx v = (a.e.eval cur).testBit (v.2 - a.tgt.lo) := by
+  unfold Blk.runFF
+  simp only [List.foldl_append, List.foldl_cons]
+  rw [foldl_runFF_frame post cur _ v hpost]
+  simp [Asg.runFF, hv]
+
+/-- all bits of all registers change in the same step: after the flip a register bit holds its shadow,
+every other bit is unchanged (struct-typed registers are ranges of one signal: their leaves flip together) -/
+theorem edge (ffs : List Blk) (st : FState) (v : Var) :
+    (Rtl.flip ffs st).cur v = if isReg ffs v.1 then st.next v else st.cur v := rfl
+
+/-- invariant at every cycle boundary: the shadow of a register equals its value (so "not assigned" means
+"holds"); it is established by `value <<= value` at lock-in and preserved by every tick in which the comb
+blocks do not write registers -/
+theorem next_eq_cur (comb ffs : List Blk) (st : FState)
+    (hcomb : ∀ b ∈ comb, ∀ v, inRngs b.writes v → isReg ffs v.1 = false) :
+    ∀ v, isReg ffs v.1 = true → (tick comb ffs st).next v = (tick comb ffs st).cur v := by
+  intro v hv
+  unfold tick evalComb
+  simp only
+  have hfr : ∀ (s : St), runBlocks comb s v = s v := by
+    intro s
+    unfold runBlocks
+    induction comb generalizing s with
+    | nil => rfl
+    | cons b bs ih =>
+      simp only [List.foldl_cons]
+      rw [ih (fun c hc => hcomb c (List.mem_cons_of_mem _ hc))]
+      apply Blk.run_frame
+      intro hw
+      have := hcomb b List.mem_cons_self v hw
+      rw [hv] at this; cases this
+  rw [hfr]
+  simp [Rtl.flip, hv]
+
+/-- the whole tick does not depend on the order of the ff blocks -/
+theorem tick_ff_perm (comb p1 p2 : List Blk) (h : p1.Perm p2) (hsw : singleWriterB p1 = true) (st : FState) :
+    tick comb p1 st = tick comb p2 st := by
+  have hreg : isReg p1 = isReg p2 := by
+    funext g
+    unfold isReg
+    rw [Bool.eq_iff_iff, List.any_eq_true, List.any_eq_true]
+    constructor
+    · intro ⟨b, hb, hx⟩; exact ⟨b, h.mem_iff.mp hb, hx⟩
+    · intro ⟨b, hb, hx⟩; exact ⟨b, h.mem_iff.mpr hb, hx⟩
+  unfold tick Rtl.flip
+  simp only [ff_perm p1 p2 h hsw, hreg]
+
+/-! ## non-vacuity: two blocks reading each other's register (a swap) -/
+def swapA : Blk := ⟨0, [⟨⟨0, 0, 4⟩, .rd ⟨1, 0, 4⟩⟩]⟩     -- r0 <<= r1
+def swapB : Blk := ⟨1, [⟨⟨1, 0, 4⟩, .rd ⟨0, 0, 4⟩⟩]⟩     -- r1 <<= r0
+example : singleWriterB [swapA, swapB] = true := by decide
+example : [swapA, swapB].Perm [swapB, swapA] := List.Perm.swap _ _ _
+
 end PV.C07
